@@ -281,6 +281,12 @@ def run(cx, rep):
     # ---------------------------------------------------------------- C12.7
     rep.rule("C12.7", "reportDecodeError(): every element of an array-valued constructor argument is accounted for (no fixed-size prefix)")
     ts_common.truncation_rule(cx, rep, "C12.7", ['reportDecodeError'])
+    # ---------------------------------------------------------------- C12.12 (= C11.2 + C03.2)
+    # a reporter that decides "is this key declared?" by another predicate than validate() reports nothing for the keys
+    # the two disagree on: the rejected value comes back with an empty error list
+    rep.rule("C12.12", "reporters tell declared from undeclared keys exactly as validate does: by the class's own declared-key list, never by `in` / a lookup on a dictionary with a prototype (= C11.2, C03.2)")
+    from rules.c01 import lifted_rules
+    lifted_rules(cx, rep, "C12.12", (("rules.c11", "C11.2"), ("rules.c03", "C03.2")))
     # ---------------------------------------------------------------- C12.10
     rep.rule("C12.10", "rendering errors never converts a value of unknown type to a string implicitly where it can be a symbol or an object (= C03.16)")
     ts_common.implicit_to_string_rule(cx, rep, "C12.10")
